@@ -156,14 +156,24 @@ func checkReload(c *run.Ctx, res *run.Result, h *hist) {
 	diffs := diff(orig, re)
 	changedParams := map[string]bool{}
 	for _, d := range diffs {
-		if d.class == "parameter-value-differs" && strings.Contains(d.site, "parameter.File") {
-			res.Count("TMP_muted_file", 1)
-		} else {
-			violate(d.class, d.site, inputClass(orig), d.detail)
-		}
 		if d.class == "parameter-value-differs" {
 			changedParams[d.id] = true
+			if o := orig.Nodes[d.id]; o != nil && paramKind(o.Type) == "(parameter.File)" {
+				// The signature "parameter-value-differs @ Parameter.ToJSON/FromJSON (parameter.File)"
+				// is reserved for one mechanism (known finding: the jbtf decoder ignores the
+				// byteLength of a buffer view): the reloaded value is the saved value followed
+				// by everything that comes after it in the binary buffer of the file.
+				if view, toEnd, ok := fileViewInSavedGraph(s1, d.id); ok && bytes.Equal(view, o.Message) && len(toEnd) > len(view) && bytes.Equal(toEnd, re.Nodes[d.id].Message) {
+					violate(d.class, "Parameter.ToJSON/FromJSON (parameter.File)", "File parameter followed by another binary blob in the saved buffer",
+						fmt.Sprintf("parameter %s (parameter.File): the %d saved bytes reload as %d bytes = the saved bytes followed by the %d bytes of the later buffer views of the file (the decoder reads to the end of the buffer instead of bufferView.byteLength)", d.id, len(view), len(toEnd), len(toEnd)-len(view)))
+					res.Count("file_parameters_reloaded_with_trailing_blobs", 1)
+				} else {
+					violate("file-parameter-value-differs", "parameter.File value after reload (not the trailing-blob mechanism)", inputClass(orig), d.detail)
+				}
+				continue
+			}
 		}
+		violate(d.class, d.site, inputClass(orig), d.detail)
 	}
 	// ---- evidence about what was compared ----------------------------------------
 	maxArr, arrConns, params, ptypes := 0, 0, 0, map[string]bool{}
@@ -207,8 +217,7 @@ func checkReload(c *run.Ctx, res *run.Result, h *hist) {
 		r1, e1 := resolveBuffers(s1)
 		r2, e2 := resolveBuffers(s2)
 		if e1 == nil && e2 == nil && r1 == r2 {
-			res.Count("TMP_muted_layout", 1)
-			_ = fmt.Sprint("resave-differs-in-buffer-layout", "graph.Instance.EncodeToAppSchema (binary buffers written in map order)", inputClass(orig),
+			violate("resave-differs-in-buffer-layout", "graph.Instance.EncodeToAppSchema (binary buffers written in map order)", inputClass(orig),
 				fmt.Sprintf("saving the reloaded graph does not reproduce the file byte for byte (%d vs %d bytes): the two files hold the same content but their binary buffer views are in a different order; first difference: %s", len(s1), len(s2), firstDiff(string(s1), string(s2))))
 		} else {
 			violate("resave-differs", "App.Schema", inputClass(orig),
